@@ -240,6 +240,11 @@ def gen_cases(tier, seed):
         for procs in ([2, 4] if q else [2, 4, 8]):
             for kind in ('surface', 'boxvol'):
                 cases.append(dict(mode='sched_voxelize', grid=grid, procs=procs, kind=kind))
+    # the documented keyword options of voxelize, whatever they do, must do the same in one process and in many
+    for opts in (dict(padding=0.04), dict(use_cubes=True), dict(padding=0.3, use_cubes=True)):
+        for procs in ([2, 4] if q else [2, 4, 8]):
+            for kind in ('surface', 'boxvol'):
+                cases.append(dict(mode='sched_voxelize', grid=[5, 4, 6] if kind == 'surface' else [3, 3, 2], procs=procs, kind=kind, opts=opts))
     for grid in ([[8, 8, 8], [3, 4, 5]] if q else [[8, 8, 8], [3, 4, 5], [5, 5, 5], [2, 2, 7]]):
         for procs in ([2, 4] if q else [2, 4, 8]):
             for kind in ('tinysurf', 'farsurf'):
@@ -415,8 +420,9 @@ def _tess_result(procs, nsurf, seed, own_delta=False):
                 evalpts=[list(p) for p in c.evalpts])
 
 
-def _voxel_result(procs, kind, grid, seed):
+def _voxel_result(procs, kind, grid, seed, opts=None):
     from geomdl import voxelize
+    opts = dict(opts or {})
     if kind == 'boxvol':
         # axis-aligned trilinear box: every voxel of the grid, the last ones included, contains sampled points
         d = A.shape_desc([[0, 0, 1, 1], [0, 0, 1, 1], [0, 0, 1, 1]], [1, 1, 1], False, 3, 'coded')
@@ -433,9 +439,9 @@ def _voxel_result(procs, kind, grid, seed):
         o = S.build(A.shape_desc([[0, 0, 1, 1], [0, 0, 0.5, 1, 1], [0, 0, 1, 1]], [1, 1, 1], True, 3, 'coded', 'coded'), seed)
         o.sample_size_u, o.sample_size_v, o.sample_size_w = 2, 3, 2
     if procs == 1:
-        g, f = voxelize.voxelize(o, grid_size=tuple(grid))
+        g, f = voxelize.voxelize(o, grid_size=tuple(grid), **opts)
     else:
-        g, f = voxelize.voxelize(o, grid_size=tuple(grid), num_procs=procs)
+        g, f = voxelize.voxelize(o, grid_size=tuple(grid), num_procs=procs, **opts)
     return dict(grid=g, filled=list(f))
 
 
@@ -509,9 +515,9 @@ def _sched_tessellate(case, ctx):
 
 
 def _sched_voxelize(case, ctx):
-    ref = _voxel_result(1, case['kind'], case['grid'], ctx.seed)
-    feats = dict(query='voxelize', procs=case['procs'], grid=case['grid'], kind=case['kind'])
-    _explore(ctx, case, lambda: _voxel_result(case['procs'], case['kind'], case['grid'], ctx.seed), ref,
+    ref = _voxel_result(1, case['kind'], case['grid'], ctx.seed, case.get('opts'))
+    feats = dict(query='voxelize', procs=case['procs'], grid=case['grid'], kind=case['kind'], opts=case.get('opts'))
+    _explore(ctx, case, lambda: _voxel_result(case['procs'], case['kind'], case['grid'], ctx.seed, case.get('opts')), ref,
              'C17.num_procs.voxelize.same_result', feats)
 
 
